@@ -100,6 +100,10 @@ func unmarshalStruct(result Result, val reflect.Value, settings ...ContextApply)
 
 		if ok {
 			err = setField(name, field, fieldVal, false)
+		} else if field.Kind() == reflect.Struct && field.CanSet() {
+			// A nested struct is filled in place, so that its untagged
+			// fields keep their values.
+			err = unmarshal(result, field.Addr().Interface(), settings...)
 		} else {
 			ptr := reflect.New(fieldType)
 			ptr.Elem().Set(reflect.Zero(fieldType))
